@@ -25,6 +25,20 @@ CHECKS = {
         PX_NOTE,
         "DESIGN.md 3/C03",
     ),
+    "C06": (
+        "model_checking",
+        "explicit-state exploration of the builder's transition graph: every transition s --step--> s' checked against the step applied to the materialised pre-state (same executor on both sides), plus accept/reject equivalence",
+        "For every state at depth <= 1 (thorough: <= 2 on extend/select/drop/rename/order chains) and every outgoing menu entry (core menu + simplification entries: common-target extends, reads of replaced columns, swaps, re-selection of removed columns, checked joins): the chained pipeline must be accepted exactly when the same step is accepted on a fresh table description with the pre-state's columns, and on every multiset of <= 2 input rows its Pandas result must equal the step evaluated on the pre-state's materialised result.",
+        "Pandas on both sides (executor deviations cancel). Inputs whose answer depends on row order (ties) are skipped via the reference model's tie detection.",
+        "DESIGN.md 3/C06",
+    ),
+    "C07": (
+        "model_checking",
+        "explicit-state exploration of composable pairs/triples: b explored from a's output columns; four composition forms vs sequential application on the materialised intermediate result",
+        "All a at depth <= 1 (thorough 2) over a one-entry-per-operator-kind slice x all b at depth <= 2 explored from a table description with a's output columns are composed by a >> b, DataOpArrow composition, replace_leaves and eval with a map of pipelines; every form must be accepted, report dom/cod equal to the composed pipeline's columns, and on all multisets of <= 2 rows equal b run on the materialised result of a; all (a, b, c) with one-step b and c are checked for associativity (structural identity, else result identity).",
+        "Pandas executor on both sides; tie-dependent inputs skipped via the reference model.",
+        "DESIGN.md 3/C07",
+    ),
     "C08": (
         "model_checking",
         "explicit-state BFS over the real pipeline builder x small inputs (incl. empty) x 5 executors; invariant: returned columns == declared column_names",
